@@ -36,6 +36,14 @@ def blocks_of(kind, atoms, mtxs):
         return [[("lock", m), ("ld", o), ("st", o), ("unlock", m)] for o in atoms for m in mtxs]
     if kind == "try":
         return [[("trylock", m), ("tunlock", m)] for m in mtxs]
+    # nested sections over two mutexes: a holder that waits for a second lock, and a holder that only TRIES the second one
+    # (it never waits: the pair cannot deadlock, and a thread about to try_lock must not be blocked by the acquisition)
+    if kind == "nest":
+        return [[("lock", a), ("lock", b), ("unlock", b), ("unlock", a)] for a in mtxs for b in mtxs if a != b]
+    if kind == "nesttry":
+        return [[("lock", a), ("trylock", b), ("tunlock", b), ("unlock", a)] for a in mtxs for b in mtxs if a != b]
+    if kind == "nestld":
+        return [[("lock", a), ("ld", o), ("trylock", b), ("tunlock", b), ("unlock", a)] for a in mtxs for b in mtxs if a != b for o in atoms]
     # condvar blocks (one mutex m, one condvar cv, a flag s): wait is three abstract instructions (see Dpor.tla)
     if kind == "cvw":        # lock; wait; unlock
         return [[("lock", m), ("cvwait", "cv"), ("cvblock", "none"), ("lock", m), ("unlock", m)] for m in mtxs[:1]]
@@ -90,6 +98,13 @@ def blocks_of(kind, atoms, mtxs):
         return [[("recv", "ch")]]
     if kind == "tryrecv":
         return [[("tryrecv", "ch")]]
+    # channel operations inside a critical section (the receiver may block while it holds the mutex the sender needs)
+    if kind == "cssend":
+        return [[("lock", m), ("send", "ch"), ("unlock", m)] for m in mtxs]
+    if kind == "csrecv":
+        return [[("lock", m), ("recv", "ch"), ("unlock", m)] for m in mtxs]
+    if kind == "trysend":
+        return [[("trylock", m), ("tunlock", m), ("send", "ch")] for m in mtxs]
     if kind == "acount":
         return [[("acount", "A")]]
     if kind == "aclonedrop":
@@ -265,7 +280,8 @@ def run_spec(ctx, progs, bounds, n, label, rule="perthread", timeout=3000, invar
     cfg = os.path.join(work, "MCDporRun.cfg")
     with open(cfg, "w") as f:
         f.write(f'SPECIFICATION Spec\nCONSTANTS\n  N = {n}\n  Progs <- RunProgs\n  BoundList <- RunBounds\n  Rule = "{rule}"\n  Emit = TRUE\n'
-                "INVARIANTS NoPanic NoRepeat " + ("Complete Sound Monotone Saturates " if invariants else "") + "Report\nCHECK_DEADLOCK FALSE\n")
+                "INVARIANTS NoPanic NoRepeat " + ("Complete Sound Monotone Saturates " if invariants is True else
+                                                  " ".join(invariants) + " " if invariants else "") + "Report\nCHECK_DEADLOCK FALSE\n")
     r = tlc.run_tlc(work, "MCDporRun", cfg, workers=ctx.tlc_workers, timeout=timeout, xmx="10g")
     ctx.add_tlc(r, label)
     if "Model checking completed. No error has been found." not in r["text"]:
@@ -341,7 +357,12 @@ def run(ctx, spaces, bounds, sample, rng, want=("C01", "C15")):
             if len(ref) >= 2:
                 nontriv += 1
             ub = real.get(None)
-            if "C01" in want and ub is not None and use_results and inv:
+            full = inv is True or (isinstance(inv, (list, tuple)) and "Complete" in inv)
+            # a deadlock report for a program whose reference has none (these programs do not branch on loaded values:
+            # whether they can deadlock does not depend on the memory model)
+            if ub is not None and inv and "deadlock" in ub and "deadlock" not in ref:
+                ctx.violation("false-report", d, "deadlock", {"reference": "Dpor.tla RefOutcomes"})
+            if "C01" in want and ub is not None and use_results and full:
                 if "deadlock" in ref:
                     if "deadlock" not in ub:
                         ctx.violation("missed-report", d, "deadlock", {"reference": "Dpor.tla RefOutcomes"})
@@ -350,7 +371,7 @@ def run(ctx, spaces, bounds, sample, rng, want=("C01", "C15")):
                         ctx.violation("missing-outcome", d, w, {"reference": "Dpor.tla RefOutcomes", "loom_outcomes": len(ub)})
                     # no "illegal outcome" direction here: loom's SeqCst loads and stores behave as acquire/release
                     # (README, C03), so loom may legally return more than the interleaving semantics; C03 owns soundness
-            if "C15" in want and ub is not None and "deadlock" not in ref and inv:
+            if "C15" in want and ub is not None and "deadlock" not in ref and full:
                 prev = None
                 for b in [x for x in bounds if x is not None]:
                     kb = real[b]
